@@ -360,8 +360,22 @@ func evalGet(pb *reclib.Playback, k *KCorpus, cs Case) Result {
 				}
 			}
 			needPre := firstInIdx >= 0 && !k.Samples[firstInIdx].Sync
+			// when the pre-roll is not needed (no sample of the track in the window, or the first
+			// one is a random-access sample) any part of the allowed pre-roll is "only samples since
+			// the last random-access point" (contiguity is checked above)
+			subset := true
+			inAllowed := map[int]bool{}
+			for _, i := range allowed {
+				inAllowed[i] = true
+			}
+			for _, i := range pre {
+				if !inAllowed[i] {
+					subset = false
+				}
+			}
 			switch {
 			case same:
+			case !needPre && subset:
 			case len(pre) == 0 && !needPre:
 			case len(pre) == 0 && needPre:
 				viol("preroll-missing", fmt.Sprintf("track %d: the first sample in the window (unit %d) is not a random-access sample and nothing precedes it",
